@@ -148,8 +148,18 @@ func cmdVerify(args []string) (code int) {
 		}
 		fn := v.funcsByKey[key]
 		if fn == nil {
-			fmt.Fprintf(os.Stderr, "ENGINE ERROR: function under contract %s not found in /repo (renamed or removed?)\n", f)
-			return 2
+			// the function the contract is written on is gone (removed, renamed, signature moved to another receiver): the
+			// obligations generated from it on the unchanged tree can no longer be generated, so what they established is
+			// undecided - one failed obligation, the rest of the property is still checked
+			fmt.Fprintf(os.Stderr, "warning: function under contract %s not found in /repo (renamed or removed?)\n", f)
+			mf := NewFuncVC(v, nil, nil, cfg.ID)
+			mf.obls = append(mf.obls, &Obligation{Name: fmt.Sprintf("%s/%s/contract-target", cfg.ID, strings.ReplaceAll(f, "::", ".")), Kind: "contract:target", Func: f, Pos: "",
+				Text: "the function under contract exists, so its obligations can be generated", ctx: mf.ctx, Static: true, Solver: "generator", Result: "failed",
+				Model: "function " + f + " is under contract for this property but is not in /repo any more (renamed or removed); the clauses proved about it on the unchanged tree are undecided"})
+			allObls = append(allObls, mf.obls...)
+			fvs = append(fvs, mf)
+			fnames = append(fnames, f+" (missing)")
+			continue
 		}
 		con := v.contracts[fn]
 		if con == nil {
@@ -1046,7 +1056,13 @@ func verifyWithAliases(v *Verifier, fn *ssa.Function, con *Contract, prop string
 		return fv
 	}
 	if missing == "" {
-		panic(err)
+		// the contract no longer fits the code (a method, field or loop it names is gone) or the function left the
+		// generator's subset: its obligations cannot be generated, which leaves its clauses undecided - one failed
+		// obligation (on the unchanged tree every contract resolves, so this only arises from a change to /repo)
+		fv = NewFuncVC(v, fn, con, prop)
+		fv.obls = append(fv.obls, &Obligation{Name: fmt.Sprintf("%s/%s/contract-applies", prop, fv.funcName()), Kind: "contract:applies", Func: fv.funcName(), Pos: v.prog.Fset.Position(fn.Pos()).String(),
+			Text: "the contract of the function resolves against its code, so its obligations can be generated", ctx: fv.ctx, Static: true, Solver: "generator", Result: "failed", Model: err.Msg})
+		return fv
 	}
 	// candidate locals
 	seen := map[string]bool{missing: true}
